@@ -231,6 +231,30 @@ func deriveCmdLine(t *Trans) *Derived {
 		}
 		line := fmt.Sprintf("cmd.commit %s %s %s %s %s %s %s %d %s", entriesOut(pre.Index), snapS, brS, anyB, cl, cg, unix, t.TZ, hx([]byte(msg)))
 		return &Derived{Line: line, Impl: impl}
+	case "reflog":
+		if len(t.Args) != 1 {
+			return nil
+		}
+		line := "cmd.reflog none"
+		if pre.HasLogHead {
+			line = "cmd.reflog " + hx(pre.LogHead)
+			if pre.headCommit() == "" {
+				return nil // records but no commit under HEAD: not a state the commands produce
+			}
+		}
+		impl := "err"
+		if t.Res.Class == "ok" {
+			ls, ok := parseReflogOut(t.Res.Stdout)
+			if !ok {
+				return nil
+			}
+			var xs []string
+			for _, l := range ls {
+				xs = append(xs, fmt.Sprintf("%d:%s:%s:%s", l.Pos, l.Hash, l.Kind, hx([]byte(l.Msg))))
+			}
+			impl = "ok " + listOut(xs)
+		}
+		return &Derived{Line: line, Impl: impl}
 	case "log":
 		// goit log [-n k]: the model walks the stored commit objects from HEAD's commit
 		k := int64(5) // the default is a regenerated fact (FactsCheck: log default)
